@@ -20,7 +20,10 @@ from lib import common, pipeline
 from lib.common import ToolError
 
 UNDER = {"int": {"ty": "int", "good": "5", "bad": "-5", "cond": "v < 0", "show": "{N}"},
-         "str": {"ty": "str", "good": '"ok"', "bad": '""', "cond": "len(v) == 0", "show": "{N}"}}
+         "str": {"ty": "str", "good": '"ok"', "bad": '""', "cond": "len(v) == 0", "show": "{N}"},
+         # generic underlying types: the hook's parameter type is then a type APPLICATION (compared structurally)
+         "list": {"ty": "List[int]", "good": "[5]", "bad": "[]", "cond": "len(v) == 0", "show": "{N}"},
+         "dict": {"ty": "Dict[str, int]", "good": '{"a": 1}', "bad": "{}", "cond": "len(v) == 0", "show": "{N}"}}
 
 
 def hook_methods(hook, u):
@@ -108,7 +111,7 @@ def run(ctx):
     # ---------------------------------------------------------------- B1 cheap: emitted text, every scenario x underlying
     reqs, meta = [], []
     for r in rows:
-        for u in ("int", "str"):
+        for u in tuple(UNDER):
             src = render(r, u, UNDER[u]["good"]).replace("{N}", "") + "\ndef main() -> None:\n    println(1)\n"
             reqs.append({"op": "emit", "src": src})
             meta.append((r, u, src))
@@ -260,7 +263,7 @@ def run(ctx):
         "traces_validated_against_impl": n,
         "evaluations": n + n_run,
         "distinct_nontrivial": len(distinct),
-        "rule": "every (hook kind, declaration order) scenario of the TLC model x underlying type {int, str}: generated Rust inspected per "
+        "rule": "every (hook kind, declaration order) scenario of the TLC model x underlying type {int, str, List[int], Dict[str, int]}: generated Rust inspected per "
                 "site function; distinct by (hook, underlying, order); e2e: seeded sample x sites x {accepted, rejected} argument",
         "scenarios": len(rows), "e2e_run": n_run,
         "exhaustive": True,
